@@ -69,6 +69,12 @@ def run(ctx):
                           "Ssse3Gen", "Ssse3GenLink", "C09.gen")
     except _vlib.Fail as e:
         gen_fail = str(e)       # keep going: the differential runs below search for a concrete failing input
+    try:
+        ctx.check_genlink(lambda out: ["python3", _os0.path.join(_vlib.VERIF, "tools", "asm2coq.py"),
+                                       _os0.path.join(_vlib.REPO, "gf2p16", "slice_amd64.s"), out, "scalar"],
+                          "ScalarGen", "ScalarGenLink", "C09.scalar.gen")
+    except _vlib.Fail as e:
+        gen_fail = (gen_fail + " | " if gen_fail else "") + str(e)
     model = ctx.build_model()
     vh = ctx.build_harness()
     vh386 = ctx.build_harness(goarch="386")
@@ -189,7 +195,7 @@ def run(ctx):
             ctx.violation("%s: instruction-level SSSE3 loop model differs from field multiplication" % c[:50],
                           {"cases": [c], "model": m, "want": want.hex(), "class": {"path": "ssse3-chunks-model"}}, no_failing_input=True)
     if gen_fail:
-        ctx.violation("the SSSE3 theorems no longer check against the assembly source: %s%s" % (gen_fail[:700], " (a concrete failing input was found by the differential runs: see the other violations)" if ctx.violations else ""),
+        ctx.violation("the instruction-level theorems (SSSE3 / scalar kernels) no longer check against the assembly source: %s%s" % (gen_fail[:700], " (a concrete failing input was found by the differential runs: see the other violations)" if ctx.violations else ""),
                       {"cases": [], "theorem": "coq/GenLink/Ssse3GenLink.v (gen_*_eq / GEN_*) against Ssse3Gen.v regenerated by tools/asm2coq.py", "detail": gen_fail[-3000:],
                        "class": {"path": "ssse3-genlink"}}, no_failing_input=not ctx.violations)
     return ctx.finish(
